@@ -350,6 +350,21 @@ def _r033_034(ck, prog, cfg):
                         iters.add(x)
             fan = bool(iters)
             if fan:
+                # the walk is over *all* shards: no adaptor narrows the shard iterator (filter by a `populated`/`dirty` flag, take, skip ..)
+                narrowed = []
+                for x in arm:
+                    tt = ex.term(x)
+                    if tt["k"] == "call" and tt["args"] and is_callee(tt, r"Iterator>?::(filter|filter_map|take|skip|take_while|skip_while|step_by|nth|last|find|find_map|position)(::<.*>)?$"):
+                        chain = lib2.iter_chain(ex, tt["args"][0])
+                        if any(ct is ex.term(i_) for _, ct in chain for i_ in iters) or \
+                                any(src_of_operand(ex, tt["args"][0], through_calls=TRANSPARENT).term is ex.term(i_) for i_ in iters if src_of_operand(ex, tt["args"][0], through_calls=TRANSPARENT).kind == "call"):
+                            narrowed.append((callee(tt).rsplit("::", 1)[-1].split("<")[0], tt["ln"]))
+                if narrowed:
+                    ck.bad("R03.4", "keyspace-wide:%s:narrowed%s" % (v, _tag(cfg)),
+                           "Command::%s walks the shards through %s (line %s): shards that the adaptor leaves out are not asked, so a key that lives "
+                           "there is missing from the answer (or survives a flush) - a one-shard server always asks its only shard"
+                           % (v, narrowed[0][0], narrowed[0][1]), ex.where(narrowed[0][1]))
+                    continue
                 # ... on every path through the arm: no shortcut that answers from a single shard
                 leak = lib2.path_avoiding(ex, tg, lambda x: x not in arm or ex.term(x)["k"] == "return", lambda x: x in iters, (), from_succ=False)
                 if leak is not None:
